@@ -10,8 +10,14 @@ counted another twice: `C03_aliased_loop_skips_and_double_counts`.
 Part B (payout): the amount paid is `⌊share · R⌋` with `share = w / T` rounded at the 18th decimal;
 it is within one base unit of `⌊w·R/T⌋`, the payouts never exceed what was released, and accounts
 that were not counted receive nothing.
+
+Part C (whole block): the composition on the `State` model — the tracker `manageRewards` builds over all
+files, the state after the file pass, the payout loop as a log of the sends that went through, the exact
+payout when the module account is funded, conservation, the bound of the sum paid by the amount released,
+and `C03_reward_block_end_to_end`.
 -/
 import Canine.Proofs.StorageB
+import Canine.Proofs.RewardBlock
 import Canine.Generated.PureFns
 namespace Canine.Storage
 
@@ -331,6 +337,636 @@ example :
                  Bank.bal s.bank "storage" "ujkl")) = some (2, 2, 0, 3) := by
   rw [wSorted]; decide
 
+
+
+/-! ## Part C: the whole reward block
+
+`manageRewards s h now` = the file pass (`manageFile` folded over the files as they were at block
+start, building the tracker), `pullGauges` (releases `coins`), then `payProver` for every entry of the
+sorted tracker, with `total = Σ fileSize·|proofs|` taken at block start.  Helper lemmas:
+`Canine/Proofs/RewardBlock.lean`. -/
+
+open RewardBlock
+
+/-- the store invariant the file pass relies on (the `wf`/`key`/`listed` clauses of `Consistent` in the
+StorageA family and of `IndexInv` in StorageE, which are proved there to hold after every message and
+every block; the per-file hypotheses of `C03_each_prover_handled_once` for every stored file):
+distinct keys, every file under its own key in both indexes, duplicate-free prover lists, and every
+listed proof key points at the file that lists it -/
+structure BlockStoreInv (s : State) : Prop where
+  wf : AMap.WF s.files
+  ownKey : ∀ kv ∈ s.files, kv.2.key = kv.1
+  index2 : ∀ kv ∈ s.files, AMap.get s.files2 kv.1 = some kv.2
+  nodup : ∀ kv ∈ s.files, kv.2.proofs.Nodup
+  listed : ∀ kv ∈ s.files, ∀ pk ∈ kv.2.proofs, pk.2 = kv.1
+
+theorem BlockStoreInv.filesOK {s : State} (inv : BlockStoreInv s) : FilesOK s.files s :=
+  ⟨inv.wf, inv.ownKey, fun _ hkv => AMap.get_of_mem_wf inv.wf hkv, inv.index2, inv.nodup, inv.listed⟩
+
+/-- the state and the tracker after the file pass of `manageRewards` (verbatim the fold it runs) -/
+def filePassOf (s : State) (h : Int) : State × Tracker :=
+  s.files.foldl (fun (acc : State × Tracker) kv => manageFile acc.1 h acc.2 kv.2) (s, [])
+
+/-- `total` as `manageRewards` computes it at block start -/
+def totalOf (s : State) : Int := (s.files.map (fun kv => kv.2.fileSize * (kv.2.proofs.length : Int))).sum
+
+theorem failsIn_iff (s : State) (h : Int) (fs : List (FKey × File)) (q : PKey) :
+    failsIn s h fs q = true ↔ ∃ kv ∈ fs, q ∈ kv.2.proofs ∧ passes s h kv.2 q = false := by
+  unfold failsIn
+  simp only [List.any_eq_true, Bool.and_eq_true, decide_eq_true_eq, Bool.not_eq_true']
+
+/-- **C03 for the file pass of the whole block.**  On a state satisfying the store invariant, after
+`manageFile` has been folded over all files:
+
+* the tracker is exactly the result of crediting, in store order, one entry `(credited name, fileSize)`
+  per (file, listed proof key) pair that passes — each pair once, nothing else (`blockEntries`); hence
+  it has distinct keys, the credit of every name `a` is `Σ fileSize · #(passing keys of that file
+  credited to a)`, and its keys are exactly the names credited by some passing pair;
+* every file is stored (in both indexes) with exactly its passing provers, in order — or is gone if
+  it had no provers and was past its first window — and no other key appears;
+* exactly the records of the failing (file, key) pairs are erased;
+* the burn counter of every provider rose by the number of failing (file, key) pairs that had a record
+  and sit under its address (`blockBurns`), no other provider field changing;
+* ledger, gauges, parameters, forms, collateral, module/blocked accounts are untouched, and so are the
+  payment plans unless an empty old file was dropped. -/
+theorem C03_block_tracker_spec (s : State) (h : Int) (inv : BlockStoreInv s) :
+    let s1 := (filePassOf s h).1
+    let tracker := (filePassOf s h).2
+    tracker = creditAll [] (blockEntries s h s.files) ∧
+    AMap.WF tracker ∧
+    (∀ a, (AMap.get tracker a).getD 0 = blockCredit s h s.files a) ∧
+    (∀ a, a ∈ AMap.keys tracker ↔
+      ∃ kv ∈ s.files, ∃ pk ∈ kv.2.proofs, passes s h kv.2 pk = true ∧ creditName s pk = a) ∧
+    (∀ kv ∈ s.files, AMap.get s1.files kv.1 = outcome s h kv.2 ∧ AMap.get s1.files2 kv.1 = outcome s h kv.2) ∧
+    (∀ k, k ∉ AMap.keys s.files → AMap.get s1.files k = none ∧ AMap.get s1.files2 k = AMap.get s.files2 k) ∧
+    (∀ q, AMap.get s1.proofs q = if failsIn s h s.files q then none else AMap.get s.proofs q) ∧
+    (∀ x, AMap.get s1.providers x = (AMap.get s.providers x).map (bump (blockBurns s h s.files x))) ∧
+    SameRestB s1 s ∧ ((∀ kv ∈ s.files, emptyOld h kv.2 = false) → s1.payinfo = s.payinfo) := by
+  intro s1 tracker
+  obtain ⟨b1, b2, b3, b4, b5, b6, b7, b8, b9⟩ := filePass_spec h s.files s [] inv.filesOK
+  have e1 : tracker = creditAll [] (blockEntries s h s.files) := b1
+  have hwf : AMap.WF tracker := by rw [e1]; exact creditAll_wf _ _ (by simp [AMap.WF, AMap.keys])
+  refine ⟨e1, hwf, ?_, ?_, fun kv hkv => ⟨b2 kv hkv, b4 kv hkv⟩, ?_, b6, b7, b8, b9⟩
+  · intro a; rw [e1, creditAll_getD, wsum_blockEntries]; simp
+  · intro a
+    rw [e1, creditAll_keys]
+    simp only [AMap.keys, List.map_nil, List.not_mem_nil, false_or, List.mem_map]
+    constructor
+    · rintro ⟨e, he, rfl⟩
+      obtain ⟨kv, hkv, pk, hpk, hp, rfl⟩ := mem_blockEntries.mp he
+      exact ⟨kv, hkv, pk, hpk, hp, rfl⟩
+    · rintro ⟨kv, hkv, pk, hpk, hp, rfl⟩
+      exact ⟨_, mem_blockEntries.mpr ⟨kv, hkv, pk, hpk, hp, rfl⟩, rfl⟩
+  · intro k hk
+    exact ⟨by rw [show AMap.get s1.files k = _ from b3 k hk]; exact AMap.get_none_of_not_mem hk, b5 k hk⟩
+
+/-- **Where `Σ weights ≤ total` comes from.**  `total` is `Σ fileSize·|proofs|` over the files at block
+start and every credited pair is a listed pair, so (file sizes being non-negative — `postFile` demands
+`1 ≤ fileSize`) the weights of the tracker are non-negative and add up to at most `total`. -/
+theorem C03_block_weights_le_total (s : State) (h : Int) (inv : BlockStoreInv s)
+    (hsz : ∀ kv ∈ s.files, 0 ≤ kv.2.fileSize) :
+    let tracker := (filePassOf s h).2
+    AMap.sumBy id tracker = ((blockEntries s h s.files).map (·.2)).sum ∧
+    AMap.sumBy id tracker ≤ totalOf s ∧
+    ((sortedProvers tracker).map (·.2)).sum ≤ totalOf s ∧
+    (∀ pw ∈ tracker, 0 ≤ pw.2) ∧ (∀ pw ∈ sortedProvers tracker, 0 ≤ pw.2) := by
+  intro tracker
+  obtain ⟨e1, _, _⟩ := C03_block_tracker_spec s h inv
+  have e1 : tracker = creditAll [] (blockEntries s h s.files) := e1
+  have hs : AMap.sumBy id tracker = ((blockEntries s h s.files).map (·.2)).sum := by
+    rw [e1, creditAll_sumBy _ _ (by simp [AMap.WF, AMap.keys])]; simp [AMap.sumBy]
+  have hle : AMap.sumBy id tracker ≤ totalOf s := by
+    rw [hs]; exact sum_blockEntries_le s h s.files hsz
+  have hnn : ∀ pw ∈ tracker, 0 ≤ pw.2 := by
+    intro pw hpw
+    obtain ⟨p, w⟩ := pw
+    rw [e1] at hpw
+    rw [creditAll_entry _ p w hpw]
+    exact wsum_nonneg p _ (blockEntries_nonneg s h s.files hsz)
+  refine ⟨hs, hle, by rw [sortedProvers_sum]; exact hle, hnn, ?_⟩
+  intro pw hpw
+  exact hnn pw ((sortedProvers_perm tracker).mem_iff.mp hpw)
+
+/-- **C03 for the payout phase of the whole block** (no hypothesis on the state).  If the block
+succeeds, with `(s1, tracker)` the result of the file pass and `(s2, coins)` that of `pullGauges s1 now`,
+there is a list `paid` of the sends that went through such that
+* `paid` is a sublist of the candidate sends `blockPays total coins (sortedProvers tracker)` — for every
+  tracker entry `(p, w)` in sorted order, the empty name skipped, and every released coin `(d, R)` in
+  order, the send of `⌊share(w,total)·R⌋` units of `d` to `p` (a send that fails for lack of funds or
+  to a blocked recipient, and a zero amount, is not in `paid`, and the loop goes on);
+* every send in `paid` has a positive amount and a recipient that is not blocked;
+* nothing but the ledger changes, and for *every* address `a` and denomination `d`
+  `bal s' a d = bal s2 a d + (sent to a in paid) − (all of paid, if a is the module account)`. -/
+theorem C03_block_payout_spec (s s' s2 : State) (h now : Int) (coins : Coins)
+    (hok : manageRewards s h now = .ok s')
+    (hg : pullGauges (filePassOf s h).1 now = .ok (s2, coins)) :
+    ∃ paid : List Pay,
+      paid.Sublist (blockPays (totalOf s) coins (sortedProvers (filePassOf s h).2)) ∧
+      (∀ e ∈ paid, 0 < e.2.2 ∧ s2.blocked.contains e.1 = false) ∧
+      s' = { s2 with bank := s'.bank } ∧
+      ∀ a d, Bank.bal s'.bank a d =
+        Bank.bal s2.bank a d + paidTo paid a d - (if a = s2.moduleAcc then paidOut paid d else 0) := by
+  have hloop : (sortedProvers (filePassOf s h).2).foldlM
+      (fun st pw => payProver st (totalOf s) coins pw.1 pw.2) s2 = .ok s' := manageRewards_split hok hg
+  obtain ⟨lg, hsub, ⟨hb1, hb2⟩, hpos⟩ := payLoop_log _ _ _ _ _ hloop
+  exact ⟨lg, hsub, hpos, hb1, hb2⟩
+
+/-- **Accounts that were not counted are unchanged by the payout phase** (lifting
+`C03_uncounted_receive_nothing_fold` to the block, with equality): an address other than the module
+account that is not a key of the tracker, or is the empty string, or is blocked, holds after the block
+exactly what it held after the gauge pass; and the gauge pass itself touches only the gauge store and
+the ledger. -/
+theorem C03_block_uncounted_unchanged (s s' s2 : State) (h now : Int) (coins : Coins)
+    (hok : manageRewards s h now = .ok s')
+    (hg : pullGauges (filePassOf s h).1 now = .ok (s2, coins)) :
+    (∀ a d, a ≠ s2.moduleAcc →
+      (a ∉ AMap.keys (filePassOf s h).2 ∨ a = "" ∨ s2.blocked.contains a = true) →
+      Bank.bal s'.bank a d = Bank.bal s2.bank a d) ∧
+    s2 = { (filePassOf s h).1 with gauges := s2.gauges, bank := s2.bank } := by
+  obtain ⟨paid, hsub, hpos, _, hbal⟩ := C03_block_payout_spec s s' s2 h now coins hok hg
+  refine ⟨?_, (pullGauges_frame _ _ _ _ hg).1⟩
+  intro a d ha hcase
+  rw [hbal a d, if_neg ha]
+  have : paidTo paid a d = 0 := by
+    apply paidTo_eq_zero
+    intro e he ea
+    obtain ⟨hne, hmem⟩ := blockPays_recipient (hsub.subset he)
+    rcases hcase with hc | hc | hc
+    · apply hc
+      rw [← ea]
+      have : AMap.keys (sortedProvers (filePassOf s h).2) = (sortedProvers (filePassOf s h).2).map (·.1) := rfl
+      obtain ⟨pw, hpw, hpe⟩ := List.mem_map.mp hmem
+      rw [← hpe]
+      exact List.mem_map_of_mem (f := (·.1)) ((sortedProvers_perm _).mem_iff.mp hpw)
+    · exact hne (ea.trans hc)
+    · have := (hpos e he).2
+      rw [ea, hc] at this; cases this
+  omega
+
+/-- the closed form of what the address `a` is owed of denomination `d`: for the tracker entry of `a`
+(if any, and `a` is not the empty string) one truncated share `⌊share(w,total)·R⌋` per released coin
+`(d, R)` -/
+def owedTo (total : Int) (coins : Coins) (tracker : Tracker) (a d : String) : Int :=
+  if a = "" then 0 else ((AMap.get tracker a).map (fun w => coinPay total d w coins)).getD 0
+
+/-- **Exact payout when the module account is funded.**  On a state with the store invariant and
+non-negative file sizes, if no tracker key is blocked and the module account holds, after the gauge
+pass, at least the sum of all candidate sends of every denomination, then every send goes through:
+every address receives exactly `owedTo` — the size-weighted share of its tracker entry, truncated,
+of every released coin — and the module account pays exactly the sum. -/
+theorem C03_block_payout_exact (s s' s2 : State) (h now : Int) (coins : Coins)
+    (inv : BlockStoreInv s) (hsz : ∀ kv ∈ s.files, 0 ≤ kv.2.fileSize)
+    (hok : manageRewards s h now = .ok s')
+    (hg : pullGauges (filePassOf s h).1 now = .ok (s2, coins))
+    (hnb : ∀ a ∈ AMap.keys (filePassOf s h).2, s2.blocked.contains a = false)
+    (hfund : ∀ d, paidOut (blockPays (totalOf s) coins (sortedProvers (filePassOf s h).2)) d
+      ≤ Bank.bal s2.bank s2.moduleAcc d) :
+    s' = { s2 with bank := s'.bank } ∧
+    ∀ a d, Bank.bal s'.bank a d =
+      Bank.bal s2.bank a d + owedTo (totalOf s) coins (filePassOf s h).2 a d
+        - (if a = s2.moduleAcc then
+            paidOut (blockPays (totalOf s) coins (sortedProvers (filePassOf s h).2)) d else 0) := by
+  have hloop : (sortedProvers (filePassOf s h).2).foldlM
+      (fun st pw => payProver st (totalOf s) coins pw.1 pw.2) s2 = .ok s' := manageRewards_split hok hg
+  obtain ⟨_, hwf, _⟩ := C03_block_tracker_spec s h inv
+  obtain ⟨_, _, hsum, _, hnn⟩ := C03_block_weights_le_total s h inv hsz
+  have hpaid : ∀ a d, paidTo (blockPays (totalOf s) coins (sortedProvers (filePassOf s h).2)) a d
+      = owedTo (totalOf s) coins (filePassOf s h).2 a d := by
+    intro a d
+    rw [paidTo_blockPays _ _ _ _ _ (sortedProvers_wf _ hwf), sortedProvers_get _ hwf]; rfl
+  by_cases hemp : sortedProvers (filePassOf s h).2 = []
+  · -- nobody was counted: nothing happens
+    rw [hemp] at hloop
+    simp only [List.foldlM_nil, pure, Except.pure] at hloop
+    cases hloop
+    refine ⟨rfl, fun a d => ?_⟩
+    rw [← hpaid, hemp]
+    simp [blockPays, paidTo, paidOut]
+  · have hT : 0 < totalOf s := by
+      have h1 : totalOf s ≠ 0 := payLoop_ok_total_ne hloop hemp
+      have h2 : 0 ≤ ((sortedProvers (filePassOf s h).2).map (·.2)).sum := by
+        have : ∀ (l : List (String × Int)), (∀ pw ∈ l, 0 ≤ pw.2) → 0 ≤ (l.map (·.2)).sum := by
+          intro l; induction l with
+          | nil => intro _; simp
+          | cons x l ih =>
+            intro hl
+            have := ih (fun y hy => hl y (List.mem_cons_of_mem _ hy))
+            have := hl x (by simp)
+            simp only [List.map_cons, List.sum_cons]; omega
+        exact this _ hnn
+      omega
+    obtain ⟨st', hst, hlog⟩ := payLoop_funded (totalOf s) coins hT
+      (fun c hc => Int.le_of_lt ((pullGauges_frame _ _ _ _ hg).2.1 c hc))
+      (sortedProvers (filePassOf s h).2) s2
+      (fun pw hpw => ⟨hnn pw hpw, hnb pw.1 (List.mem_map_of_mem (f := (·.1)) ((sortedProvers_perm _).mem_iff.mp hpw))⟩)
+      hfund
+    have : s' = st' := by
+      have := hloop.symm.trans hst
+      cases this; rfl
+    subst this
+    refine ⟨hlog.1, fun a d => ?_⟩
+    rw [hlog.2 a d, hpaid]
+
+/-- **Conservation and the bound on the sum paid.**  With `paid` the sends of
+`C03_block_payout_spec`:
+1. the payout phase only moves coins out of the module account: for any duplicate-free list of
+   addresses not containing the module account but containing every other tracker key, what the module
+   account lost is exactly what those addresses gained (so the sum over all accounts is unchanged);
+2. under the side condition of `C03_payout_sum_le_released` on the released coins — `n·R < 2·10¹⁸` for
+   every released coin, `n` the number of tracker entries; the bound `Σ weights ≤ total` is *proved*
+   (`C03_block_weights_le_total`) — the sum paid of every denomination is at most the amount released,
+   so the module account ends the payout holding at least its balance after the gauge pass minus the
+   amount released, and never more than that balance. -/
+theorem C03_block_conservation (s s' s2 : State) (h now : Int) (coins : Coins)
+    (inv : BlockStoreInv s) (hsz : ∀ kv ∈ s.files, 0 ≤ kv.2.fileSize)
+    (hok : manageRewards s h now = .ok s')
+    (hg : pullGauges (filePassOf s h).1 now = .ok (s2, coins)) :
+    (∀ (accts : List String) (d : String), accts.Nodup → s2.moduleAcc ∉ accts →
+      (∀ a ∈ AMap.keys (filePassOf s h).2, a = s2.moduleAcc ∨ a ∈ accts) →
+      Bank.bal s'.bank s2.moduleAcc d + Bank.total s'.bank accts d
+        = Bank.bal s2.bank s2.moduleAcc d + Bank.total s2.bank accts d) ∧
+    ((∀ c ∈ coins, ((filePassOf s h).2.length : Int) * c.2 < 2 * 1000000000000000000) →
+      ∀ d, Bank.bal s2.bank s2.moduleAcc d - Bank.amt d coins ≤ Bank.bal s'.bank s2.moduleAcc d ∧
+           Bank.bal s'.bank s2.moduleAcc d ≤ Bank.bal s2.bank s2.moduleAcc d) := by
+  obtain ⟨paid, hsub, hpos, _, hbal⟩ := C03_block_payout_spec s s' s2 h now coins hok hg
+  have hloop : (sortedProvers (filePassOf s h).2).foldlM
+      (fun st pw => payProver st (totalOf s) coins pw.1 pw.2) s2 = .ok s' := manageRewards_split hok hg
+  obtain ⟨_, _, hsum, _, hnn⟩ := C03_block_weights_le_total s h inv hsz
+  have hcoins := (pullGauges_frame _ _ _ _ hg).2.1
+  have hpaidnn : ∀ e ∈ paid, 0 ≤ e.2.2 := fun e he => Int.le_of_lt (hpos e he).1
+  constructor
+  · intro accts d hnd hM hcov
+    -- every recipient is the module account or in `accts`
+    have hrec : ∀ e ∈ paid, e.1 ∈ s2.moduleAcc :: accts := by
+      intro e he
+      obtain ⟨_, hmem⟩ := blockPays_recipient (hsub.subset he)
+      obtain ⟨pw, hpw, hpe⟩ := List.mem_map.mp hmem
+      have hk : pw.1 ∈ AMap.keys (filePassOf s h).2 :=
+        List.mem_map_of_mem (f := (·.1)) ((sortedProvers_perm _).mem_iff.mp hpw)
+      rcases hcov pw.1 hk with e1 | e1
+      · rw [← hpe, e1]; simp
+      · rw [← hpe]; exact List.mem_cons_of_mem _ e1
+    have hall := sum_paidTo_accts d (s2.moduleAcc :: accts) (List.nodup_cons.mpr ⟨hM, hnd⟩) paid hrec
+    simp only [List.map_cons, List.sum_cons] at hall
+    have hothers : Bank.total s'.bank accts d = Bank.total s2.bank accts d + (accts.map (fun a => paidTo paid a d)).sum := by
+      unfold Bank.total
+      rw [← sum_map_add]
+      congr 1
+      apply List.map_congr_left
+      intro a ha
+      have : a ≠ s2.moduleAcc := fun e => hM (e ▸ ha)
+      rw [hbal a d, if_neg this]; omega
+    rw [hothers, hbal s2.moduleAcc d]
+    simp only [if_true]
+    omega
+  · intro hside d
+    have hmod := hbal s2.moduleAcc d
+    simp only [if_true] at hmod
+    have h1 : paidTo paid s2.moduleAcc d ≤ paidOut paid d := paidTo_le_paidOut _ _ _ hpaidnn
+    have h0 : 0 ≤ paidTo paid s2.moduleAcc d := paidTo_nonneg _ _ _ hpaidnn
+    have hbound : paidOut paid d ≤ Bank.amt d coins := by
+      by_cases hemp : sortedProvers (filePassOf s h).2 = []
+      · rw [hemp] at hsub
+        have : paid = [] := by simpa [blockPays] using hsub
+        rw [this]
+        simp only [paidOut]
+        exact amt_nonneg d coins (fun c hc => Int.le_of_lt (hcoins c hc))
+      · have hT : 0 < totalOf s := by
+          have h1 : totalOf s ≠ 0 := payLoop_ok_total_ne hloop hemp
+          have h2 : 0 ≤ ((sortedProvers (filePassOf s h).2).map (·.2)).sum := by
+            have : ∀ (l : List (String × Int)), (∀ pw ∈ l, 0 ≤ pw.2) → 0 ≤ (l.map (·.2)).sum := by
+              intro l; induction l with
+              | nil => intro _; simp
+              | cons x l ih =>
+                intro hl
+                have := ih (fun y hy => hl y (List.mem_cons_of_mem _ hy))
+                have := hl x (by simp)
+                simp only [List.map_cons, List.sum_cons]; omega
+            exact this _ hnn
+          omega
+        have hc0 : ∀ c ∈ coins, 0 ≤ c.2 := fun c hc => Int.le_of_lt (hcoins c hc)
+        have s1 := paidOut_sublist d hsub (blockPays_nonneg _ _ _ hT hc0 hnn)
+        have s2' := paidOut_blockPays_le (totalOf s) coins d hT hc0 _ hnn
+        have s3 := sum_coinPay_le (totalOf s) d _ hT hnn hsum coins hc0
+          (by rw [(sortedProvers_perm _).length_eq]; exact hside)
+        omega
+    omega
+
+/-- **All candidate sends together never exceed what was released** (per denomination), under the
+side condition `n·R < 2·10¹⁸` on the released coins: so a module account that holds the released
+coins can make every send. -/
+theorem C03_block_candidates_le_released (s s' s2 : State) (h now : Int) (coins : Coins)
+    (inv : BlockStoreInv s) (hsz : ∀ kv ∈ s.files, 0 ≤ kv.2.fileSize)
+    (hok : manageRewards s h now = .ok s')
+    (hg : pullGauges (filePassOf s h).1 now = .ok (s2, coins))
+    (hside : ∀ c ∈ coins, ((filePassOf s h).2.length : Int) * c.2 < 2 * 1000000000000000000) :
+    ∀ d, paidOut (blockPays (totalOf s) coins (sortedProvers (filePassOf s h).2)) d ≤ Bank.amt d coins := by
+  intro d
+  obtain ⟨paid, hsub, hpos, _, _⟩ := C03_block_payout_spec s s' s2 h now coins hok hg
+  have hloop : (sortedProvers (filePassOf s h).2).foldlM
+      (fun st pw => payProver st (totalOf s) coins pw.1 pw.2) s2 = .ok s' := manageRewards_split hok hg
+  obtain ⟨_, _, hsum, _, hnn⟩ := C03_block_weights_le_total s h inv hsz
+  have hc0 : ∀ c ∈ coins, 0 ≤ c.2 := fun c hc => Int.le_of_lt ((pullGauges_frame _ _ _ _ hg).2.1 c hc)
+  by_cases hemp : sortedProvers (filePassOf s h).2 = []
+  · rw [hemp]
+    simp only [blockPays, List.flatMap_nil, paidOut]
+    exact amt_nonneg d coins hc0
+  · have hT : 0 < totalOf s := by
+      have h1 : totalOf s ≠ 0 := payLoop_ok_total_ne hloop hemp
+      have h2 : 0 ≤ ((sortedProvers (filePassOf s h).2).map (·.2)).sum := by
+        have : ∀ (l : List (String × Int)), (∀ pw ∈ l, 0 ≤ pw.2) → 0 ≤ (l.map (·.2)).sum := by
+          intro l; induction l with
+          | nil => intro _; simp
+          | cons x l ih =>
+            intro hl
+            have := ih (fun y hy => hl y (List.mem_cons_of_mem _ hy))
+            have := hl x (by simp)
+            simp only [List.map_cons, List.sum_cons]; omega
+        exact this _ hnn
+      omega
+    have s2' := paidOut_blockPays_le (totalOf s) coins d hT hc0 _ hnn
+    have s3 := sum_coinPay_le (totalOf s) d _ hT hnn hsum coins hc0
+      (by rw [(sortedProvers_perm _).length_eq]; exact hside)
+    omega
+
+/-- **Every counted prover receives its size-weighted share, within one base unit, of each
+denomination** — the block-level statement.  Store invariant, non-negative sizes, no tracker key
+blocked, the side condition on the released coins, and a module account that holds the released coins
+after the gauge pass.  Then for every tracker entry `a ↦ w` (`w = Σ fileSize` over the passing pairs
+credited to `a`, by `C03_block_tracker_spec`) with `a` a non-empty name other than the module account,
+and every released coin `(d, R)` with `R ≤ 10¹⁸`: `a` gains exactly `⌊share(w,total)·R⌋` units of `d`,
+which is within one unit of `⌊w·R/total⌋`; addresses that are no tracker key gain nothing. -/
+theorem C03_block_share_within_one_unit (s s' s2 : State) (h now : Int) (coins : Coins)
+    (inv : BlockStoreInv s) (hsz : ∀ kv ∈ s.files, 0 ≤ kv.2.fileSize)
+    (hok : manageRewards s h now = .ok s')
+    (hg : pullGauges (filePassOf s h).1 now = .ok (s2, coins))
+    (hnb : ∀ a ∈ AMap.keys (filePassOf s h).2, s2.blocked.contains a = false)
+    (hside : ∀ c ∈ coins, ((filePassOf s h).2.length : Int) * c.2 < 2 * 1000000000000000000)
+    (hheld : ∀ d, Bank.amt d coins ≤ Bank.bal s2.bank s2.moduleAcc d) :
+    (∀ a w d R, AMap.get (filePassOf s h).2 a = some w → a ≠ "" → a ≠ s2.moduleAcc → (d, R) ∈ coins →
+      R ≤ 1000000000000000000 →
+      w = blockCredit s h s.files a ∧
+      Bank.bal s'.bank a d = Bank.bal s2.bank a d + payout (totalOf s) R w ∧
+      payout (totalOf s) R w ≤ w * R / totalOf s + 1 ∧ w * R / totalOf s - 1 ≤ payout (totalOf s) R w) ∧
+    (∀ a d, a ∉ AMap.keys (filePassOf s h).2 → a ≠ s2.moduleAcc →
+      Bank.bal s'.bank a d = Bank.bal s2.bank a d) := by
+  have hcand := C03_block_candidates_le_released s s' s2 h now coins inv hsz hok hg hside
+  obtain ⟨_, hex⟩ := C03_block_payout_exact s s' s2 h now coins inv hsz hok hg hnb
+    (fun d => Int.le_trans (hcand d) (hheld d))
+  refine ⟨?_, fun a d ha hm => (C03_block_uncounted_unchanged s s' s2 h now coins hok hg).1 a d hm (Or.inl ha)⟩
+  intro a w d R hget hne hm hmem hR
+  obtain ⟨_, _, hcred, _⟩ := C03_block_tracker_spec s h inv
+  obtain ⟨_, _, _, hnn, _⟩ := C03_block_weights_le_total s h inv hsz
+  have hw : w = blockCredit s h s.files a := by
+    have := hcred a; rw [hget] at this; simpa using this
+  have hw0 : 0 ≤ w := hnn (a, w) (AMap.mem_of_get hget)
+  have hR0 : 0 ≤ R := Int.le_of_lt ((pullGauges_frame _ _ _ _ hg).2.1 (d, R) hmem)
+  have hloop : (sortedProvers (filePassOf s h).2).foldlM
+      (fun st pw => payProver st (totalOf s) coins pw.1 pw.2) s2 = .ok s' := manageRewards_split hok hg
+  have hT : 0 < totalOf s := by
+    have hne' : sortedProvers (filePassOf s h).2 ≠ [] := by
+      intro e
+      have := (sortedProvers_perm (filePassOf s h).2).mem_iff.mpr (AMap.mem_of_get hget)
+      rw [e] at this; simp at this
+    have h1 : totalOf s ≠ 0 := payLoop_ok_total_ne hloop hne'
+    obtain ⟨_, hle, _, hnn', _⟩ := C03_block_weights_le_total s h inv hsz
+    have h2 : 0 ≤ AMap.sumBy id (filePassOf s h).2 := by
+      rw [sumBy_id_eq]
+      have : ∀ (l : List (String × Int)), (∀ pw ∈ l, 0 ≤ pw.2) → 0 ≤ (l.map (·.2)).sum := by
+        intro l; induction l with
+        | nil => intro _; simp
+        | cons x l ih =>
+          intro hl
+          have := ih (fun y hy => hl y (List.mem_cons_of_mem _ hy))
+          have := hl x (by simp)
+          simp only [List.map_cons, List.sum_cons]; omega
+      exact this _ hnn'
+    omega
+  have hpay : owedTo (totalOf s) coins (filePassOf s h).2 a d = payout (totalOf s) R w := by
+    unfold owedTo
+    simp only [hne, if_false, hget, Option.map_some, Option.getD_some]
+    exact coinPay_of_nodup _ _ _ _ _ (pullGauges_frame _ _ _ _ hg).2.2 hmem
+  have hcl := payout_close (totalOf s) R w hw0 hT hR0 (by unfold precision; exact hR)
+  refine ⟨hw, ?_, hcl.1, hcl.2⟩
+  rw [hex a d, hpay, if_neg hm]; omega
+
+/-- … **hence the module account ends the block holding at least what it held before the release**,
+provided the coins counted as released did arrive in the module account (`pullGauge` adds a coin to
+`coins` *before* the send from the escrow account and keeps it there if that send fails, as
+`pullTokensFromGauges` does).  `harr` is proved from "no escrow account is the module account, recorded
+amounts are non-negative" in `RewardBlock.pullGauges_arrive` and discharged that way in
+`C03_reward_block_end_to_end`. -/
+theorem C03_block_module_keeps_prior_funds (s s' s2 : State) (h now : Int) (coins : Coins)
+    (inv : BlockStoreInv s) (hsz : ∀ kv ∈ s.files, 0 ≤ kv.2.fileSize)
+    (hok : manageRewards s h now = .ok s')
+    (hg : pullGauges (filePassOf s h).1 now = .ok (s2, coins))
+    (hside : ∀ c ∈ coins, ((filePassOf s h).2.length : Int) * c.2 < 2 * 1000000000000000000)
+    (harr : ∀ d, Bank.bal s.bank s.moduleAcc d + Bank.amt d coins ≤ Bank.bal s2.bank s2.moduleAcc d) :
+    s'.moduleAcc = s.moduleAcc ∧ ∀ d, Bank.bal s.bank s.moduleAcc d ≤ Bank.bal s'.bank s'.moduleAcc d := by
+  obtain ⟨_, hc⟩ := C03_block_conservation s s' s2 h now coins inv hsz hok hg
+  obtain ⟨_, _, _, hs', _⟩ := C03_block_payout_spec s s' s2 h now coins hok hg
+  have hm : s'.moduleAcc = s2.moduleAcc := by rw [hs']
+  have hm2 : s2.moduleAcc = s.moduleAcc := by
+    obtain ⟨_, _, _, _, _, _, _, _, hr, _⟩ := C03_block_tracker_spec s h inv
+    have e := (pullGauges_frame _ _ _ _ hg).1
+    rw [e]
+    exact hr.2.2.2.2.2.2.1
+  refine ⟨hm.trans hm2, fun d => ?_⟩
+  have := (hc hside d).1
+  have := harr d
+  rw [hm]; omega
+
+/-- **C03 for the whole block, end to end.**  Store invariant, non-negative file sizes, gauges whose
+escrow accounts are not the module account and whose recorded amounts are non-negative, a module
+account without negative balances.  If the block succeeds then the gauge pass succeeded with some
+`(s2, coins)`, *every released coin arrived in the module account* (no send of the gauge pass can
+fail), and — when no tracker key is blocked and `n·R < 2·10¹⁸` for every released coin —
+* every tracker entry `a ↦ w` (`a` non-empty, not the module account; `w = Σ fileSize` over the passing
+  pairs credited to `a`) gains exactly `⌊share(w,total)·R⌋` of every released coin `(d, R)` with
+  `R ≤ 10¹⁸`, within one unit of `⌊w·R/total⌋`;
+* every other address except the module account is unchanged by the payout;
+* the module account ends the block with at least what it held before the block. -/
+theorem C03_reward_block_end_to_end (s s' : State) (h now : Int)
+    (inv : BlockStoreInv s) (hsz : ∀ kv ∈ s.files, 0 ≤ kv.2.fileSize)
+    (hgacc : ∀ kv ∈ s.gauges, kv.2.account ≠ s.moduleAcc)
+    (hgamt : ∀ kv ∈ s.gauges, ∀ c ∈ kv.2.coins, 0 ≤ c.2)
+    (hM0 : ∀ d, 0 ≤ Bank.bal s.bank s.moduleAcc d)
+    (hok : manageRewards s h now = .ok s') :
+    ∃ s2 coins, pullGauges (filePassOf s h).1 now = .ok (s2, coins) ∧
+      s2.moduleAcc = s.moduleAcc ∧ s'.moduleAcc = s.moduleAcc ∧
+      (∀ d, Bank.bal s2.bank s.moduleAcc d = Bank.bal s.bank s.moduleAcc d + Bank.amt d coins) ∧
+      ((∀ a ∈ AMap.keys (filePassOf s h).2, s.blocked.contains a = false) →
+       (∀ c ∈ coins, ((filePassOf s h).2.length : Int) * c.2 < 2 * 1000000000000000000) →
+        (∀ a w d R, AMap.get (filePassOf s h).2 a = some w → a ≠ "" → a ≠ s.moduleAcc → (d, R) ∈ coins →
+          R ≤ 1000000000000000000 →
+          w = blockCredit s h s.files a ∧
+          Bank.bal s'.bank a d = Bank.bal s2.bank a d + payout (totalOf s) R w ∧
+          payout (totalOf s) R w ≤ w * R / totalOf s + 1 ∧ w * R / totalOf s - 1 ≤ payout (totalOf s) R w) ∧
+        (∀ a d, a ∉ AMap.keys (filePassOf s h).2 → a ≠ s.moduleAcc →
+          Bank.bal s'.bank a d = Bank.bal s2.bank a d) ∧
+        (∀ d, Bank.bal s.bank s.moduleAcc d ≤ Bank.bal s'.bank s.moduleAcc d)) := by
+  obtain ⟨s2, coins, hg⟩ := manageRewards_ok_gauges hok
+  have hg : pullGauges (filePassOf s h).1 now = .ok (s2, coins) := hg
+  obtain ⟨_, _, _, _, _, _, _, _, hr, _⟩ := C03_block_tracker_spec s h inv
+  obtain ⟨r1, r2, r3, r4, r5, r6, r7, r8, r9, r10, r11⟩ := hr
+  have hfr := (pullGauges_frame _ _ _ _ hg).1
+  have hm2 : s2.moduleAcc = s.moduleAcc := by rw [hfr]; exact r7
+  have hb2 : s2.blocked = s.blocked := by rw [hfr]; exact r11
+  have harr := pullGauges_arrive (filePassOf s h).1 s2 now coins
+    (by rw [r2, r7]; exact hgacc) (by rw [r2]; exact hgamt) hg
+  rw [r5, r7, hm2] at harr
+  obtain ⟨_, _, _, hs', _⟩ := C03_block_payout_spec s s' s2 h now coins hok hg
+  have hm' : s'.moduleAcc = s.moduleAcc := by rw [hs']; exact hm2
+  refine ⟨s2, coins, hg, hm2, hm', harr, ?_⟩
+  intro hnb hside
+  have hheld : ∀ d, Bank.amt d coins ≤ Bank.bal s2.bank s2.moduleAcc d := by
+    intro d; rw [hm2, harr d]; have := hM0 d; omega
+  obtain ⟨t1, t2⟩ := C03_block_share_within_one_unit s s' s2 h now coins inv hsz hok hg
+    (by rw [hb2]; exact hnb) hside hheld
+  rw [hm2] at t1 t2
+  refine ⟨t1, t2, ?_⟩
+  have := (C03_block_module_keeps_prior_funds s s' s2 h now coins inv hsz hok hg hside
+    (by intro d; rw [hm2, harr d]; omega)).2
+  intro d
+  have := this d
+  rw [hm'] at this
+  exact this
+
+/-- the storage BeginBlocker as a whole: off the check window nothing happens, on it the block is
+`manageRewards` (to which the four theorems above apply) -/
+theorem C03_beginBlock_cases (s s' : State) (h now : Int) (hok : beginBlock s h now = .ok s') :
+    s.params.checkWindow ≠ 0 ∧
+    ((0 < Int.tmod h s.params.checkWindow ∧ s' = s) ∨
+     (¬ 0 < Int.tmod h s.params.checkWindow ∧ manageRewards s h now = .ok s')) := by
+  unfold beginBlock at hok
+  split at hok
+  · cases hok
+  · rename_i hcw
+    refine ⟨hcw, ?_⟩
+    split at hok
+    · rename_i hm; cases hok; exact Or.inl ⟨hm, rfl⟩
+    · rename_i hm; exact Or.inr ⟨hm, hok⟩
+
+/-! ### Non-vacuity of Part C: two files, three provers, one of which fails
+
+`wFile` (size 10: `fail`, `ok1`, `ok2`) and `wFileB` (size 20: `ok1`), height 100; one live gauge of
+1000 ujkl half-way through its life, so 500 ujkl are released; `total = 10·3 + 20·1 = 50`. -/
+
+def wFileB : File :=
+  { merkle := "n", owner := "o", start := 0, expires := 0, fileSize := 20, proofInterval := 5, proofType := 0,
+    proofs := [("ok1", ("n", "o", 0))], maxProofs := 3, note := "" }
+
+def wGauge : Gauge := { id := "g1", startT := 0, endT := 10000000, coins := [("ujkl", 1000)], account := "gauge1" }
+
+def wState2 : State :=
+  { wState with
+    files := [(wFile.key, wFile), (wFileB.key, wFileB)], files2 := [(wFile.key, wFile), (wFileB.key, wFileB)],
+    proofs := wState.proofs ++ [(("ok1", wFileB.key), { wProof "ok1" 97 with merkle := "n" })],
+    gauges := [("g1", wGauge)],
+    bank := [(("gauge1", "ujkl"), 1000)] }
+
+theorem ok_of_toOption {ε α : Type} {r : Except ε α} {x : α} (h : r.toOption = some x) : r = .ok x := by
+  cases r with
+  | error e => simp [Except.toOption] at h
+  | ok a => simp [Except.toOption] at h; rw [h]
+
+/-- the state after the gauge pass: 500 ujkl moved from the escrow account to the module account -/
+def w2S2 : State :=
+  { (filePassOf wState2 100).1 with bank := [(("gauge1", "ujkl"), 500), (("storage", "ujkl"), 500)] }
+
+/-- the state after the block -/
+def w2Final : State :=
+  { w2S2 with bank := [(("gauge1", "ujkl"), 500), (("storage", "ujkl"), 100), (("ok1", "ujkl"), 300), (("ok2", "ujkl"), 100)] }
+
+theorem w2_inv : BlockStoreInv wState2 :=
+  ⟨by unfold AMap.WF AMap.keys; decide, by decide, by decide, by decide, by decide⟩
+theorem w2_sizes : ∀ kv ∈ wState2.files, 0 ≤ kv.2.fileSize := by decide
+theorem w2_tracker : (filePassOf wState2 100).2 = [("ok1", 30), ("ok2", 10)] := by decide
+theorem w2_gauges : pullGauges (filePassOf wState2 100).1 5000000 = .ok (w2S2, [("ujkl", 500)]) :=
+  ok_of_toOption (by decide)
+theorem w2_sorted : sortedProvers [("ok1", (30 : Int)), ("ok2", 10)] = [("ok1", 30), ("ok2", 10)] := by
+  simp [sortedProvers, List.mergeSort, List.MergeSort.Internal.splitInTwo]
+
+/-- the block succeeds on the witness, with this final state (`mergeSort` is rewritten, the rest is evaluated) -/
+theorem w2_block : manageRewards wState2 100 5000000 = .ok w2Final := by
+  have hg : pullGauges (filePass 100 wState2.files wState2 []).1 5000000 = .ok (w2S2, [("ujkl", 500)]) := w2_gauges
+  have ht : (filePass 100 wState2.files wState2 []).2 = [("ok1", 30), ("ok2", 10)] := w2_tracker
+  rw [manageRewards_eq, hg, ht]
+  simp only
+  rw [w2_sorted]
+  exact ok_of_toOption (by decide)
+
+theorem w2_notBlocked : ∀ a ∈ AMap.keys (filePassOf wState2 100).2, w2S2.blocked.contains a = false := by
+  rw [w2_tracker]; decide
+theorem w2_side : ∀ c ∈ [("ujkl", (500 : Int))],
+    ((filePassOf wState2 100).2.length : Int) * c.2 < 2 * 1000000000000000000 := by
+  rw [w2_tracker]; decide
+theorem w2_held : ∀ d, Bank.amt d [("ujkl", 500)] ≤ Bank.bal w2S2.bank w2S2.moduleAcc d := by
+  intro d
+  have hm : w2S2.moduleAcc = "storage" := by decide
+  have hb : w2S2.bank = [(("gauge1", "ujkl"), 500), (("storage", "ujkl"), 500)] := rfl
+  rw [hm, hb]
+  by_cases hd : d = "ujkl"
+  · subst hd; decide
+  · simp [Bank.amt, Ne.symm hd]
+    unfold Bank.bal; simp [AMap.get, Ne.symm hd]
+
+/-- every hypothesis of the Part C theorems holds on the witness (the block is on the check window,
+so `beginBlock` runs it) … -/
+example : BlockStoreInv wState2 ∧ (∀ kv ∈ wState2.files, 0 ≤ kv.2.fileSize) ∧
+    beginBlock wState2 100 5000000 = .ok w2Final ∧ manageRewards wState2 100 5000000 = .ok w2Final ∧
+    pullGauges (filePassOf wState2 100).1 5000000 = .ok (w2S2, [("ujkl", 500)]) ∧
+    (∀ a ∈ AMap.keys (filePassOf wState2 100).2, w2S2.blocked.contains a = false) ∧
+    (∀ c ∈ [("ujkl", (500 : Int))], ((filePassOf wState2 100).2.length : Int) * c.2 < 2 * 1000000000000000000) ∧
+    (∀ d, Bank.amt d [("ujkl", 500)] ≤ Bank.bal w2S2.bank w2S2.moduleAcc d) ∧
+    (∀ d, Bank.bal wState2.bank wState2.moduleAcc d + Bank.amt d [("ujkl", 500)] ≤ Bank.bal w2S2.bank w2S2.moduleAcc d) :=
+  ⟨w2_inv, w2_sizes, by rw [← w2_block]; rfl, w2_block, w2_gauges, w2_notBlocked, w2_side, w2_held,
+   fun d => by
+    have : Bank.bal wState2.bank wState2.moduleAcc d = 0 := by
+      unfold Bank.bal; simp [wState2, wState, AMap.get]
+    rw [this]; have := w2_held d; omega⟩
+
+/-- … the file pass does what `C03_block_tracker_spec` says: `ok1` is credited both files (30), `ok2`
+one (10), `fail` nothing; `fail` is removed from `wFile` only, its record erased and its provider burned
+once; `wFileB` keeps its prover … -/
+example :
+    (filePassOf wState2 100).2 = [("ok1", 30), ("ok2", 10)] ∧
+    blockEntries wState2 100 wState2.files = [("ok1", 10), ("ok2", 10), ("ok1", 20)] ∧
+    blockCredit wState2 100 wState2.files "ok1" = 30 ∧ blockCredit wState2 100 wState2.files "fail" = 0 ∧
+    totalOf wState2 = 50 ∧
+    (outcome wState2 100 wFile).map (·.proofs) = some [("ok1", wFile.key), ("ok2", wFile.key)] ∧
+    (outcome wState2 100 wFileB).map (·.proofs) = some [("ok1", wFileB.key)] ∧
+    failsIn wState2 100 wState2.files ("fail", wFile.key) = true ∧
+    failsIn wState2 100 wState2.files ("ok1", wFileB.key) = false ∧
+    blockBurns wState2 100 wState2.files "fail" = 1 ∧ blockBurns wState2 100 wState2.files "ok1" = 0 ∧
+    AMap.get (filePassOf wState2 100).1.proofs ("fail", wFile.key) = none ∧
+    (AMap.get (filePassOf wState2 100).1.providers "fail").map (·.burned) = some (some 1) := by decide
+
+/-- … and the payout is the one the theorems give: of the 500 ujkl released, `ok1` gets
+`⌊30/50·500⌋ = 300`, `ok2` `⌊10/50·500⌋ = 100`, `fail` nothing; the failed prover's 100 stay in the
+module account, which pays out exactly 400. -/
+example :
+    Bank.bal w2Final.bank "ok1" "ujkl" = 300 ∧ Bank.bal w2Final.bank "ok2" "ujkl" = 100 ∧
+    Bank.bal w2Final.bank "fail" "ujkl" = 0 ∧ Bank.bal w2Final.bank "storage" "ujkl" = 100 ∧
+    Bank.bal w2S2.bank "storage" "ujkl" = 500 ∧
+    payout (totalOf wState2) 500 30 = 300 ∧ payout (totalOf wState2) 500 10 = 100 := by decide
+
+/-- `C03_block_share_within_one_unit` instantiated on the witness -/
+example : Bank.bal w2Final.bank "ok1" "ujkl" = Bank.bal w2S2.bank "ok1" "ujkl" + payout (totalOf wState2) 500 30 :=
+  ((C03_block_share_within_one_unit wState2 w2Final w2S2 100 5000000 [("ujkl", 500)] w2_inv w2_sizes w2_block
+      w2_gauges w2_notBlocked w2_side w2_held).1 "ok1" 30 "ujkl" 500
+    (by rw [w2_tracker]; decide) (by decide) (by decide) (by simp) (by decide)).2.1
+
+/-- the hypotheses of `C03_reward_block_end_to_end` hold on the witness too (escrow account `gauge1`
+is not the module account, the recorded amount is non-negative, the module account starts empty) -/
+example : True := by
+  have hM0 : ∀ d, 0 ≤ Bank.bal wState2.bank wState2.moduleAcc d := by
+    intro d
+    have : Bank.bal wState2.bank wState2.moduleAcc d = 0 := by
+      unfold Bank.bal; simp [wState2, wState, AMap.get]
+    omega
+  have := C03_reward_block_end_to_end wState2 w2Final 100 5000000 w2_inv w2_sizes (by decide) (by decide) hM0 w2_block
+  trivial
 
 /-! ## The share computation as it stands in the source (regenerated tie) -/
 
